@@ -448,7 +448,7 @@ int main(int argc, char **argv)
     {"eulerPhi", "atoms { atomNumbers 5 6 7 8 }\n refPositions (1.0, 0.2, 0.1) (-0.3, 1.1, 0.2) (-0.5, -0.9, 0.6) (-0.2, -0.4, -0.9)\n", 360},
     {"eulerPsi", "atoms { atomNumbers 5 6 7 8 }\n refPositions (1.0, 0.2, 0.1) (-0.3, 1.1, 0.2) (-0.5, -0.9, 0.6) (-0.2, -0.4, -0.9)\n", 360},
     {"distanceZ", "period 3.0\n main { atomNumbers 1 }\n ref { atomNumbers 2 }\n", 3.0}};
-  std::vector<double> rfrac = {0.0, 0.5, -0.25, 0.8};  // wrap centre as a fraction of the period
+  std::vector<double> rfrac = {0.0, 0.5, -0.25, 0.8, 1.25, -1.5};  // wrap centre as a fraction of the period (the last two lie more than one period from the origin)
   for (auto &rc : rcs)
     for (size_t k = 0; k < rfrac.size(); k++)
       conf += "colvar { name rep_" + rc.comp + "_" + std::to_string(k) + "\n " + rc.comp + " {\n " +
